@@ -212,9 +212,35 @@ static void handler(vbi_event *ev, void *ud)
 	}
 }
 
+/* Handler churn: in one history of three an application registers, re-registers with another mask and
+ * unregisters a second handler between receptions.  Its masks are subsets of what the monitor's own handler
+ * already requests, so no event type is newly activated and nothing the decoder remembers may change: the
+ * announcements must be exactly those of a history without the churn. */
+static uint32_t churn_state;
+static int churn_on, h2_registered;
+static void handler2(vbi_event *ev, void *ud) { (void)ev; (void)ud; }
+static uint32_t churn_next(void) { churn_state ^= churn_state << 13; churn_state ^= churn_state >> 17; churn_state ^= churn_state << 5; return churn_state; }
+static void churn(void)
+{
+	static const int masks[] = { VBI_EVENT_ASPECT, VBI_EVENT_NETWORK, VBI_EVENT_NETWORK_ID, VBI_EVENT_PROG_ID, VBI_EVENT_LOCAL_TIME,
+		VBI_EVENT_TTX_PAGE, VBI_EVENT_NETWORK | VBI_EVENT_NETWORK_ID, VBI_EVENT_ASPECT | VBI_EVENT_PROG_ID };
+	if (!churn_on || (churn_next() & 7)) return;
+	if (h2_registered && (churn_next() & 1)) {
+		vf_phase("vbi_event_handler_unregister");
+		vbi_event_handler_unregister(vbi, handler2, NULL);
+		h2_registered = 0;
+	} else {
+		vf_phase("vbi_event_handler_register");
+		vbi_event_handler_register(vbi, masks[churn_next() % (sizeof masks / sizeof masks[0])], handler2, NULL);
+		h2_registered = 1;
+	}
+	vf_count("handler_churn_actions", 1);
+}
+
 static void decode1(unsigned id, int line, const uint8_t *data, int n)
 {
 	vbi_sliced sl;
+	churn();
 	memset(&sl, 0, sizeof sl);
 	sl.id = id; sl.line = (uint32_t)line;
 	memcpy(sl.data, data, (size_t)n);
@@ -677,6 +703,11 @@ static void new_decoder(void)
 	vbi = vbi_decoder_new();
 	if (!vbi) { vf_fail("harness:alloc", "vbi_decoder_new failed"); return; }
 	vbi_event_handler_register(vbi, EVMASK, handler, NULL);
+	churn_state = ((uint32_t)vf_seed * 2654435761u) ^ ((uint32_t)vf_case * 40503u) ^ 0x9E3779B9u;
+	if (!churn_state) churn_state = 1;
+	churn_next(); churn_next();
+	churn_on = strcmp(vf_mode, "exh") != 0 && (churn_next() % 3) == 0;
+	h2_registered = 0;
 }
 
 static void del_decoder(void)
